@@ -67,14 +67,10 @@ func TestC19ListenerTimeoutsAreNotUpstreamLimits(t *testing.T) {
 		tg := &route.Target{Service: "svc", URL: upURL}
 		p := &proxy.HTTPProxy{Stats: wire.Stats(), Transport: transport.NewTransport(nil), InsecureTransport: transport.NewTransport(&tls.Config{InsecureSkipVerify: true}),
 			Lookup: func(*http.Request) *route.Target { return tg }}
-		ln, err := hx.Listen("tcp", "127.0.0.1:0")
-		if err != nil {
-			t.Fatalf("VERIF-INCONCLUSIVE %v", err)
-		}
-		addr := ln.Addr().String()
-		ln.Close()
+		addr := hx.FreeAddr()
 		go proxy.ListenAndServeHTTP(config.Listen{Addr: addr, Proto: "http", ReadTimeout: rt, WriteTimeout: wt, IdleTimeout: it}, p, nil)
 		var c net.Conn
+		var err error
 		for i := 0; i < 400; i++ {
 			if c, err = net.DialTimeout("tcp", addr, 100*time.Millisecond); err == nil {
 				break
